@@ -855,4 +855,73 @@ theorem upgrade_heads_from_empty_runs_all {h : Hist} {o : LoadOpts} {m : LMap} (
     obtain ⟨hh, hmax, hreach⟩ := exists_max_above L m.ids x hx
     exact ⟨hh, (hrh hh).mpr ⟨hmax.1, hmax.2⟩, hreach⟩
 
+/-- every revision reaches a revision without `down_revision` along its links -/
+theorem reaches_root {m : LMap} (L : Loaded m) (x : Id) (hx : x ∈ m.ids) :
+    ∃ r, r ∈ m.ids ∧ m.downOf r = [] ∧ Reach m.allDownOf x r := by
+  obtain ⟨rank, hrank⟩ := L.ranked
+  have key : ∀ n x, rank x = n → x ∈ m.ids → ∃ r, r ∈ m.ids ∧ m.downOf r = [] ∧ Reach m.allDownOf x r := by
+    intro n
+    induction n using Nat.strongRecOn with
+    | _ n ih =>
+      intro x hn hx
+      cases hdn : m.downOf x with
+      | nil => exact ⟨x, hx, hdn, Reach.refl _⟩
+      | cons p rest =>
+        have hp : p ∈ m.downOf x := by rw [hdn]; exact List.mem_cons_self
+        have hpa : p ∈ m.allDownOf x := L.norm_sub_all x p (L.down_sub_norm x p hp)
+        have hlt : rank p < n := by rw [← hn]; exact hrank x p hpa
+        obtain ⟨r, hr, hrd, hreach⟩ := ih (rank p) hlt p rfl (L.refs_closed x p hpa)
+        exact ⟨r, hr, hrd, Reach.step hpa hreach⟩
+  exact key (rank x) x rfl hx
+
+open C16 in
+/-- **`downgrade base` removes every applied revision**: for every loaded history and every version table,
+the plan `downgrade base` computes contains exactly the revisions the rows imply (the rows — revision ids, as the
+table holds them — and everything they need), each once, none before an applied revision that needs it (`C02.plan`) — nothing applied is left behind. -/
+theorem downgrade_base_removes_all {h : Hist} {o : LoadOpts} {m : LMap} (hl : load h o = .ok m)
+    (hu : (h.map (·.id)).Nodup) (hd : ∀ r ∈ h, ∀ d ∈ r.down, d ∈ h.map (·.id))
+    (rows : List Id) (plan : List Id) (hp : downgradeRevs m rows "base" = .ok plan) :
+    ∃ cur, resolveRows m rows = .ok cur ∧ plan.Nodup ∧
+      ((∀ c ∈ cur, c ∈ m.ids) → ∀ x, x ∈ plan ↔ Requires m cur x) := by
+  have L := loaded_of_load hl hu hd
+  obtain ⟨label, tgt, roots, cur, hpt, hroots, hcur, D, _⟩ := C02.plan hl hu hd rows "base" plan hp
+  have hm : matchRelative "base" = none := by decide +kernel
+  have hrp : rpartitionAt "base" = ("", "base") := by decide +kernel
+  have hgr : getRevision m "base" = .ok none := by
+    unfold getRevision resolveFuel resolveRevisionNumber
+    simp [splitFirstAt_noat "base" (by decide), bind, Except.bind, pure, Except.pure]
+  unfold parseDowngradeTarget at hpt
+  simp only [hm, hrp, hgr, bind, Except.bind, pure, Except.pure] at hpt
+  have hlt : label = none ∧ tgt = none := by
+    have := Except.ok.inj hpt
+    simp at this
+    exact ⟨this.1.symm, this.2.symm⟩
+  obtain ⟨e1, e2⟩ := hlt
+  subst e1; subst e2
+  unfold Model.Rev.downgradeRoots at hroots
+  simp only [pure, Except.pure] at hroots
+  have hr := (Except.ok.inj hroots).symm
+  refine ⟨cur, hcur, D.nodup, ?_⟩
+  intro hcurids x
+  rw [D.exact x]
+  constructor
+  · exact fun hh => hh.2
+  · intro hreq
+    refine ⟨?_, hreq⟩
+    -- `x` is a revision of the history, so it reaches a root
+    obtain ⟨c, hc, hreach⟩ := hreq
+    have hcur_ids : c ∈ m.ids := hcurids c hc
+    have hxi : x ∈ m.ids := by
+      clear hp hpt hroots D hc
+      induction hreach with
+      | refl _ => exact hcur_ids
+      | step hs _ ih => exact ih (L.refs_closed _ _ hs)
+    obtain ⟨r, hri, hrd, hrr⟩ := reaches_root L x hxi
+    refine ⟨r, ?_, hrr⟩
+    rw [hr]
+    apply List.mem_map.mpr
+    refine ⟨(r, r), List.mem_filter.mpr ⟨?_, by simp [hrd]⟩, rfl⟩
+    unfold LMap.keys
+    exact List.mem_append_left _ (List.mem_map.mpr ⟨r, hri, rfl⟩)
+
 end C05
